@@ -22,7 +22,7 @@ _b = builtins
 class UnmodelledAttr(Unmodelled, AttributeError):
     pass
 
-__version__ = 'symtorch-1'
+__version__ = '2.14.0+symtorch'
 
 # --------------------------------------------------------------------------
 # dtypes, finfo, device
@@ -155,7 +155,7 @@ def _contig(size):
 
 
 def _norm_size(args):
-    if len(args) == 1 and not isinstance(args[0], _b.int):
+    if len(args) == 1 and not isinstance(args[0], _b.int) and not (isinstance(args[0], Tensor) and args[0].dim() == 0):
         return tuple(_b.int(x) for x in args[0])
     return tuple(_b.int(x) for x in args)
 
@@ -329,7 +329,11 @@ def is_grad_enabled():
 
 
 class Tensor:
-    def __init__(self, storage, size, stride, offset, dt, requires_grad=False):
+    def __init__(self, storage, size=None, stride=None, offset=0, dt=None, requires_grad=False):
+        if size is None:        # legacy constructor torch.Tensor(data)
+            size, storage = _flatten_data(storage)
+            storage = [_cast(v, float32) for v in storage]
+            stride, dt = _contig(size), float32
         self._storage = storage
         self._size = Size(size)
         self._stride = tuple(stride)
@@ -605,6 +609,40 @@ class Tensor:
             d = _wrap_dim(d, self.dim())
         keep = [i for i, n in enumerate(self._size) if not (n == 1 and (d is None or i == d))]
         return self._view([self._size[i] for i in keep], [self._stride[i] for i in keep], self._offset)
+
+    def unsqueeze_(self, d):
+        t = self.unsqueeze(d)
+        self._size, self._stride = t._size, t._stride
+        return self
+
+    def diag_embed(self, offset=0, dim1=-2, dim2=-1):
+        if offset != 0:
+            raise Unmodelled('diag_embed with offset')
+        nd = self.dim() + 1
+        dim1, dim2 = _wrap_dim(dim1, nd), _wrap_dim(dim2, nd)
+        n = self._size[-1]
+        rest = [d for d in range(nd) if d not in (dim1, dim2)]
+        osz = [0] * nd
+        for d, s_ in zip(rest, self._size[:-1]):
+            osz[d] = s_
+        osz[dim1] = osz[dim2] = n
+        z = _cast(0, self.dtype)
+        vals = []
+        for ix in itertools.product(*[range(s_) for s_ in osz]):
+            if ix[dim1] == ix[dim2]:
+                vals.append(self._get(tuple(ix[d] for d in rest) + (ix[dim1],)))
+            else:
+                vals.append(z)
+        return _result(vals, osz, self.dtype, (self,))
+
+    def matmul(self, o):
+        return self.__matmul__(o)
+
+    def mv(self, o):
+        return mv(self, o)
+
+    def mm(self, o):
+        return mm(self, o)
 
     def squeeze_(self, d=None):
         t = self.squeeze(d)
@@ -1482,8 +1520,13 @@ def eye(n, m=None, dtype=None, device=None):
 
 
 def arange(*a, dtype=None, device=None):
-    r = list(range(*a))
-    return Tensor._new(r, (len(r),), dtype or int64)
+    if _b.all(isinstance(x, _b.int) for x in a):
+        r = list(range(*a))
+        return Tensor._new([_cast(x, dtype) for x in r] if dtype else r, (len(r),), dtype or int64)
+    start, end, step = (0, a[0], 1) if len(a) == 1 else (a[0], a[1], 1) if len(a) == 2 else a
+    n = _b.max(0, math.ceil((end - start) / step))
+    dtype = dtype or get_default_dtype()
+    return Tensor._new([_cast(start + i * step, dtype) for i in range(n)], (n,), dtype)
 
 
 def stack(tensors, dim=0):
